@@ -3522,7 +3522,9 @@ func (bc *Blockchain) InitVerificationContext(ic *interop.Context, hash util.Uin
 		if err != nil {
 			return fmt.Errorf("%w: %w", ErrInvalidInvocationScript, err)
 		}
-		ic.VM.LoadScript(witness.InvocationScript)
+		// The verification script doesn't call the invocation script, it only
+		// uses the stack it leaves.
+		ic.VM.LoadScriptWithCaller(witness.InvocationScript, util.Uint160{}, callflag.NoneFlag)
 	}
 	return nil
 }
